@@ -5,10 +5,12 @@ PROP = dict(
               "Shangrla.C10.sample_eq_sorted_union", "Shangrla.C10.continue_contains_prev",
               "Shangrla.C10.contest_data_eq_any_prev", "Shangrla.C10.data_extends",
               "Shangrla.C10.continue_eq_scratch_of_junkFree", "Shangrla.C10.step_eq", "Shangrla.C10.rounds_extend"],
-    groups={"sampling": (8000, 40000)},
+    groups={"sampling": (8000, 40000), "nm": (1500, 30000)},
     design_ref="DESIGN.md section 5, C10",
     partial="'measured risk is non-increasing from round to round' (risk_mono) is a statement about the statistical "
-            "tests and is proved in the NonnegMean package, not here",
+            "tests and is proved in the NonnegMean package, not here; on the implementation it is evaluated by the "
+            "oracle of the `nm` group (p-values of the prefixes of every sample, at several cut points, are "
+            "non-increasing) next to the model correspondence of the tests",
     assumptions=[
         "same as C07; rounds share the card list (styles and sample numbers do not change between rounds)",
         "data_extends_* are stated for contests with n_c >= 1 in the earlier round (see C07 / F20)",
